@@ -10,7 +10,7 @@ Definition parsed (toks : list token_type) : nat * list pnode :=
 Definition built (init : binit) (p : nat * list pnode) : bstate * nat :=
   match build (snd p) init lit_all (build_fuel (snd p)) (fst p) with
   | Ok r => r
-  | _ => (mkBS [] [] [] [] [], 0)
+  | _ => (mkBS [] [] [] [] [] 0, 0)
   end.
 Definition tree_or_leaf (p : nat * list pnode) : tree :=
   match tree_of (snd p) (fst p) with Some t => t | None => T 0 D_Drop None None end.
